@@ -816,8 +816,8 @@ class Evolution(pg.DNAGenerator):
                 global_state=self._global_state,
                 step=self._num_feedbacks)
           self._num_feedbacks += 1
-        if is_initial_population(dna):
-          init_population.append((dna, reward))
+      if is_initial_population(dna):
+        init_population.append((dna, reward))
 
       # Recover `self.num_generations`.
       generation_id = get_generation_id(dna)
@@ -826,7 +826,8 @@ class Evolution(pg.DNAGenerator):
 
     # Recover the state of the population initializer.
     if (self._init_population_size is not None
-        and len(init_population) >= self._init_population_size):
+        and len([r for _, r in init_population if r is not None])
+        >= self._init_population_size):
       self._population_initialized = True
     if not self._population_initialized:
       # While the initial population is being proposed, `num_generations`
